@@ -470,7 +470,7 @@ impl<'a, 'b> G<'a, 'b> {
         for i in 0..n {
             let last = i + 1 == n;
             let ends = self.o.allow_end;
-            let s = match self.t.weighted(&[10, if last && depth > 0 { 3 } else { 0 }, 2, if self.in_sub.is_some() && last && ends { 1 } else { 0 }, if last && ends { 1 } else { 0 }]) {
+            let s = match self.t.weighted(&[10, if last && depth > 0 { 3 } else { 0 }, 2, if self.in_sub.is_some() && last { 1 } else { 0 }, if last && ends { 1 } else { 0 }]) {
                 0 => self.simple(),
                 1 => self.if_inline(depth - 1),
                 2 => match self.gosub_target() {
@@ -578,7 +578,7 @@ impl<'a, 'b> G<'a, 'b> {
                 if self.o.errors && !self.error_planted { 1 } else { 0 },
                 if self.o.stop { 1 } else { 0 },
                 if deep { 1 } else { 0 },
-                if self.o.allow_end { 1 } else { 0 },
+                if self.o.allow_end || self.in_sub.is_some() { 1 } else { 0 },
             ];
             match self.t.weighted(&w) {
                 0 => {
